@@ -19,6 +19,11 @@ def build(d):
         out["name"] = d["n"]
     if d.get("i") is not None:
         out["id"] = d["i"]
+    if d["k"] == "f":
+        # a filter that applies to no rule of the set (other log source category or unknown rule name)
+        out["logsource"] = {"category": d["ls"]}
+        out["filter"] = {"rules": list(d["rules"]), "selection": {"g": "x"}, "condition": "not selection"}
+        return out
     if d["k"] == "p":
         det = {}
         conds = []
@@ -42,21 +47,22 @@ def _exc(e, phase):
     return {"phase": phase, "exc": type(e).__name__, "sigma": isinstance(e, SigmaError)}
 
 
-def load(path, dicts, tmp):
-    """returns (collection, effective document order as list of positions of `dicts`)"""
+def load(path, dicts, tmp, resolve=True):
+    """the collection, loaded through one of the load paths; resolve=False defers the resolution of
+    references (resolve_references=False on every loader involved) to Backend.convert"""
     n = len(dicts)
     if path == "from_dicts":
-        return SigmaCollection.from_dicts(copy.deepcopy(dicts))
+        return SigmaCollection.from_dicts(copy.deepcopy(dicts), resolve_references=resolve)
     if path == "from_yaml":
-        return SigmaCollection.from_yaml(yaml.safe_dump_all(dicts, sort_keys=False))
+        return SigmaCollection.from_yaml(yaml.safe_dump_all(dicts, sort_keys=False), resolve_references=resolve)
     if path == "merge":
-        cols = [SigmaCollection.from_dicts([copy.deepcopy(x)], resolve_references=False) for x in dicts]
-        return SigmaCollection.merge(cols)
+        cols = [SigmaCollection.from_dicts([copy.deepcopy(x)], resolve_references=False, collect_filters=True) for x in dicts]
+        return SigmaCollection.merge(cols, resolve_references=resolve)
     if path == "merge2":   # two unresolved multi-document collections
         h = n // 2
-        cols = [SigmaCollection.from_yaml(yaml.safe_dump_all(part, sort_keys=False), resolve_references=False)
+        cols = [SigmaCollection.from_yaml(yaml.safe_dump_all(part, sort_keys=False), resolve_references=False, collect_filters=True)
                 for part in (dicts[:h], dicts[h:]) if part]
-        return SigmaCollection.merge(cols)
+        return SigmaCollection.merge(cols, resolve_references=resolve)
     if path in ("ruleset", "ruleset2"):
         files = []
         if path == "ruleset":
@@ -67,16 +73,22 @@ def load(path, dicts, tmp):
             p = Path(tmp) / f"r{k:03d}.yml"
             p.write_text(yaml.safe_dump_all(part, sort_keys=False), encoding="utf-8")
             files.append(p)
-        return SigmaCollection.load_ruleset(files)
+        return SigmaCollection.load_ruleset(files, resolve_references=resolve)
     raise ValueError(path)
 
 
-def run_one(path, dicts, tmp):
-    try:
-        col = load(path, dicts, tmp)
-    except Exception as e:  # noqa
-        return _exc(e, "load")
-    order_load = [r.title for r in col.rules]
+NOOP_FILTER = {"title": "appended filter", "logsource": {"category": "other"},
+               "filter": {"rules": ["nosuchrule"], "selection": {"g": "x"}, "condition": "not selection"}}
+
+
+def titles(col):
+    from sigma.filters import SigmaFilter
+    return [r.title for r in col.rules if not isinstance(r, SigmaFilter)]
+
+
+def convert_once(col, resolved):
+    """one Backend.convert of the collection with a fresh backend; `resolved`: the references of the
+    collection have been resolved successfully before"""
     own = []
 
     def cb(rule, fmt, index, cond, result):
@@ -86,15 +98,48 @@ def run_one(path, dicts, tmp):
         qs = TextQueryTestBackend().convert(col, callback=cb)
     except Exception as e:  # noqa
         r = _exc(e, "convert")
-        r["order_load"] = order_load
+        if r["exc"] == "SigmaRuleNotFoundError" and not resolved:
+            r["phase"] = "load"       # deferred resolution: the reference is looked up when convert resolves
         return r
-    return {"order_load": order_load, "order_conv": [r.title for r in col.rules], "queries": qs, "own": own}
+    return {"order_conv": titles(col), "queries": qs, "own": own}
+
+
+def run_one(path, dicts, tmp, mode):
+    """mode: {"resolve": references resolved while loading?, "conv": direct | explicit | twice | appendf}
+    returns a list of results (two for conv == "twice": the same collection object converted twice).
+    order_load = order of collection.rules after the FIRST resolution of the references (while loading, by
+    the explicit call, or by the first Backend.convert when everything was deferred)."""
+    resolve, conv = mode.get("resolve", True), mode.get("conv", "direct")
+    first = None
+    try:
+        col = load(path, dicts, tmp, resolve)
+        if resolve:
+            first = titles(col)
+        if conv == "explicit":
+            col.resolve_rule_references()
+            if not resolve:
+                first = titles(col)
+            resolve = True
+        elif conv == "appendf":
+            from sigma.filters import SigmaFilter
+            col.rules.append(SigmaFilter.from_dict(copy.deepcopy(NOOP_FILTER)))
+    except Exception as e:  # noqa
+        return [_exc(e, "load")] * (2 if conv == "twice" else 1)
+    res = []
+    for k in range(2 if conv == "twice" else 1):
+        r = convert_once(col, resolve or (k > 0 and "exc" not in res[0]))
+        if first is None:
+            first = titles(col)
+        r["order_load"] = first
+        res.append(r)
+    return res
 
 
 def run_orders(case):
-    """case: {"docs": [abstract documents], "perms": [[positions]], "path": load path}.
-    One result per permutation; query strings are interned in a table to keep the output small."""
+    """case: {"docs": [abstract documents], "perms": [[positions]], "path": load path, "mode": see run_one}.
+    One result per permutation (two for mode conv == "twice"); query strings are interned in a table."""
     docs = [build(d) for d in case["docs"]]
+    mode = case.get("mode") or {}
     tab, idx = [], {}
 
     def intern(q):
@@ -110,12 +155,16 @@ def run_orders(case):
         for p in case["perms"]:
             sub = os.path.join(tmp, "x")
             os.makedirs(sub, exist_ok=True)
-            r = run_one(case["path"], [docs[i] for i in p], sub)
+            rs = run_one(case["path"], [docs[i] for i in p], sub, mode)
             shutil.rmtree(sub, ignore_errors=True)
-            if "queries" in r:
-                r["queries"] = [intern(q) for q in r["queries"]]
-                r["own"] = [[t, intern(q)] for t, q in r["own"]]
-            res.append(r)
+            out = []
+            for r in rs:
+                r = dict(r)
+                if "queries" in r:
+                    r["queries"] = [intern(q) for q in r["queries"]]
+                    r["own"] = [[t, intern(q)] for t, q in r["own"]]
+                out.append(r)
+            res.append(out)
     finally:
         shutil.rmtree(tmp, ignore_errors=True)
     return {"tab": tab, "res": res}
